@@ -384,6 +384,20 @@ def stepReg (st : DState) (args : List String) : Option (DState × String) :=
       let tid := q.tables.length
       some ({ st with q := { q with tables := q.tables ++ [{ rows := rws }] },
                       convNames := st.convNames ++ [(name, tid)] }, "ok")
+  | ["conv_call", name, a, u, dflt] =>
+    -- the converter object called directly: `conv(qty, to_unit)` — the amount,
+    -- None where it has no row, IncompatibleUnitsError for a unit of another type
+    match Rounding.ofName? dflt with
+    | none => some (st, bad)
+    | some d =>
+      match st.convNames.lookup name, parseQty? r d a, unitId? r u with
+      | some tid, some (.ok qa), some v =>
+        some (st, match q.applyTable (q.tables.getD tid default) qa v with
+          | .error e => "err " ++ e.name
+          | .ok none => "ok none"
+          | .ok (some x) => "ok " ++ ratStr x)
+      | _, some (.error e), _ => some (st, "err " ++ e.name)
+      | _, _, _ => some (st, bad)
   | ["conv_reg", cls, name] =>
     -- `register_converter`: does nothing if the converter is already registered
     match clsId? r cls, st.convNames.lookup name with
